@@ -432,11 +432,19 @@ pub fn base_spec(shape: usize, packaging: Packaging, comp: Comp, seed: u32) -> C
                 variants: vec![],
                 sort: vec![],
                 entries: (0..ne).map(|i| RawEntry { variant: 0, vals: vec![rv(0x0100_0000 + i * 0x0001_0101, 0, 0)] }).collect(),
-                windows: vec![Win::Whole],
+                // twelve indexes over the store (a directory pack with many indexes, looked up by name)
+                windows: (0..12u16).map(|k| if k == 0 { Win::Whole } else { Win::Interior(k * 5000, 3000 + k * 100) }).collect(),
             }],
             linked: false,
             index_meta: false,
         };
+        return spec;
+    }
+    if shape == 8 {
+        // content-info table above 1 MiB (more than 262144 contents)
+        let mut spec = base_spec(1, packaging, comp, seed);
+        spec.contents = (0..270_000u32).map(|i| c(i % 2, Entropy::Text, Hint::No, 40_000 + i)).collect();
+        spec.extra_packs.clear();
         return spec;
     }
     if shape == 4 {
@@ -661,9 +669,19 @@ pub fn make_multi_pack_base(name: &str, comp: Comp, seed: u32, scratch: &Path, o
         let all_bytes = std::fs::read(&all).unwrap();
         let fd = indep::decode_file(&all_bytes).map_err(|e| Failure::new("create-error", format!("multi-pack base: independent decoder: {e}")))?;
         let locs = fd.container.as_ref().map(|c| c.locators.clone()).unwrap_or_default();
+        // the pack is handed to add_pack through a reader that delivers it in small pieces (a pipe,
+        // a socket, a BufReader after a peek: short reads are legal for any Read)
+        struct Dribble(std::io::Cursor<Vec<u8>>, usize);
+        impl std::io::Read for Dribble {
+            fn read(&mut self, buf: &mut [u8]) -> std::io::Result<usize> {
+                self.1 = self.1 % 7 + 1;
+                let n = buf.len().min(self.1 * 301);
+                self.0.read(&mut buf[..n])
+            }
+        }
         let put = |c: &mut jbk::creator::ContainerPackCreator<_>, u: uuid::Uuid| -> Result<(), Failure> {
             let (_, size, off) = locs.iter().find(|l| l.0 == *u.as_bytes()).ok_or_else(|| Failure::new("create-error", "pack not found in the assembled file"))?;
-            let mut st = std::io::Cursor::new(all_bytes[*off as usize..(*off + *size) as usize].to_vec());
+            let mut st = Dribble(std::io::Cursor::new(all_bytes[*off as usize..(*off + *size) as usize].to_vec()), 0);
             c.add_pack(u, &mut st).map_err(io)
         };
         let mut main = jbk::creator::ContainerPackCreator::new(&path, Default::default()).map_err(io)?;
@@ -677,9 +695,11 @@ pub fn make_multi_pack_base(name: &str, comp: Comp, seed: u32, scratch: &Path, o
             put(&mut main, muuid)?;
             main.finalize().map_err(io)?;
             for u in &cp_uuids {
-                match jbk::tools::set_location(path.as_std_path(), *u, "packs.jbk".into()) {
-                    Ok(Some(_)) => {}
-                    other => return Err(Failure::new("create-error", format!("multi-pack base: set_location: {:?}", other.map(|o| o.is_some()).map_err(|e| e.to_string())))),
+                // a failure here means the container just assembled cannot be opened: go on, the
+                // pristine self-check of the run reports it (a created container that does not
+                // read cleanly is a violation, not a harness problem)
+                if let Ok(None) = jbk::tools::set_location(path.as_std_path(), *u, "packs.jbk".into()) {
+                    return Err(Failure::new("create-error", "multi-pack base: set_location does not find the pack it was given".to_string()));
                 }
             }
             files.push("packs.jbk".into());
@@ -1246,6 +1266,10 @@ pub fn check_cmd(id: &str, tier: Tier) -> i32 {
     big_specs.push(("T-OneFile-none".into(), base_spec(2, Packaging::OneFile, Comp::None, s32)));
     big_specs.push(("T-TwoFiles-zstd".into(), base_spec(2, Packaging::TwoFiles, Comp::Zstd(3), s32)));
     big_specs.push(("T3-OneFile-none-20000".into(), base_spec(4, Packaging::OneFile, Comp::None, s32)));
+    if tier == Tier::Thorough && id == "C06" {
+        // content-info table above 1 MiB: every case on it costs about half a second
+        big_specs.push(("T4-OneFile-none-270000".into(), base_spec(8, Packaging::OneFile, Comp::None, s32)));
+    }
     big_specs.push(("D-OneFile-none-bigdir".into(), base_spec(5, Packaging::OneFile, Comp::None, s32)));
     big_specs.push(("L-OneFile-zstd".into(), base_spec(3, Packaging::OneFile, Comp::Zstd(3), s32)));
     big_specs.push(("L-OneFile-lzma".into(), base_spec(3, Packaging::OneFile, Comp::Lzma(1), s32)));
@@ -1335,7 +1359,9 @@ pub fn check_cmd(id: &str, tier: Tier) -> i32 {
         }
     }
     let n_small = bases.len();
-    for (name, spec) in &big_specs {
+    // JBKV_BASES=<substring>: development aid, keeps only the big bases whose name contains it
+    let only = std::env::var("JBKV_BASES").ok();
+    for (name, spec) in big_specs.iter().filter(|(n, _)| only.as_ref().map_or(true, |o| n.contains(o.as_str()))) {
         let made = if name.starts_with('T') {
             make_big_tables_base(name, spec, scratch.path(), other.clone())
         } else if name.starts_with("L-") {
